@@ -113,5 +113,5 @@ pub fn vx_take4<T: Copy>(s: &[T]) -> (r: [T; 4])
 // <[T]>::contains (T4)
 pub assume_specification<T: PartialEq>[ <[T]>::contains ](s: &[T], x: &T) -> (r: bool)
     ensures
-        T::obeys_eq_spec() ==> r == (exists|i: int| 0 <= i < s.len() && #[trigger] s[i].eq_spec(x)),
+        <T as vstd::std_specs::cmp::PartialEqSpec>::obeys_eq_spec() ==> r == (exists|i: int| 0 <= i < s.len() && #[trigger] vstd::std_specs::cmp::PartialEqSpec::eq_spec(&s[i], x)),
 ;
